@@ -5,7 +5,7 @@
    implementation's solution is CHECKED against them exactly (in Q) by the correspondence run. *)
 From Coq Require Import List Reals QArith.
 From FDAV Require Import Base.Num Base.Vec Model.Basis Model.Pspline
-  Lemmas.Vec Lemmas.Gram Lemmas.Pspline Lemmas.PsplineConst Lemmas.PsplineLinear.
+  Lemmas.Vec Lemmas.Gram Lemmas.Pspline Lemmas.PsplineConst Lemmas.PsplineLinear Lemmas.PsplineQuadratic.
 Import ListNotations.
 Local Open Scope R_scope.
 
@@ -73,11 +73,12 @@ Theorem C05_diff_annihilates_quadratic : forall a b c n,
   diffn opsR 3 (map (fun j => a + b * INR j + c * (INR j * INR j)) (seq 0 (S (S (S n))))) = map (fun _ => 0) (seq 0 n).
 Proof. exact diff_annihilates_quadratic. Qed.
 Print Assumptions C05_diff_annihilates_quadratic.
-(* C05_poly_reproduction_partial: "every polynomial of degree < order is reproduced" is proved END TO END, on
-   the very design and penalty matrices the correspondence check executes (1-D), for degree 0 (constants, any
-   penalty order >= 1: C05_constants_reproduced) and degree 1 (affine functions, any penalty order >= 2:
-   C05_affine_reproduced, through the Greville identity of Lemmas/Greville.v).  Degree 2 (order 3) needs the
-   quadratic case of Marsden's identity: NOT proved — monitored on the implementation; so is the n-D case. *)
+(* C05 polynomial reproduction: "every polynomial of degree < order (order in 1..3) is reproduced" is proved END TO
+   END on the very design and penalty matrices the correspondence check executes, in 1-D: degree 0 (constants, any
+   order >= 1: C05_constants_reproduced), degree 1 (affine, any order >= 2: C05_affine_reproduced, via the Greville
+   identity) and degree 2 (quadratics, any order >= 3, spline degree >= 2 — quadratics do not lie in the space of
+   linear splines: C05_quadratic_reproduced, via the quadratic case of Marsden's identity, Lemmas/Marsden2.v).
+   C05_poly_reproduction_partial: the n-D (tensor-product) case is monitored on the implementation, not proved. *)
 Theorem C05_difference_penalty_annihilates_constants : forall c nb d,
   mv opsR (diffmat opsR nb (S d)) (repeat c nb) = zeros opsR (length (diffmat opsR nb (S d))).
 Proof. exact diffmat_const. Qed.
@@ -109,6 +110,20 @@ Theorem C05_affine_reproduced : forall a b nseg p, a < b -> (0 < nseg)%nat -> (1
   nth k (fitted opsR (design a b nseg p xs) beta) 0 = al + be * nth k xs 0.
 Proof. exact affine_reproduced. Qed.
 Print Assumptions C05_affine_reproduced.
+Theorem C05_difference_penalty_annihilates_quadratic_coefficients : forall A0 B0 C0 nb d,
+  mv opsR (diffmat opsR nb (S (S (S d)))) (map (fun j => A0 + B0 * INR j + C0 * (INR j * INR j)) (seq 0 nb))
+  = zeros opsR (length (diffmat opsR nb (S (S (S d))))).
+Proof. exact diffmat_quadratic. Qed.
+Print Assumptions C05_difference_penalty_annihilates_quadratic_coefficients.
+Theorem C05_quadratic_reproduced : forall a b nseg p, a < b -> (0 < nseg)%nat -> (2 <= p)%nat ->
+  forall al be ga lam d w xs beta k, Forall (fun x => a <= x <= b) xs ->
+  length beta = (nseg + p)%nat -> Forall (fun v => 0 <= v) w -> 0 <= lam ->
+  Aop opsR (nseg + p) (design a b nseg p xs) w (pens1 opsR (nseg + p) (S (S (S d))) lam) beta
+    = rhs opsR (nseg + p) (design a b nseg p xs) w (map (fun x => al + be * x + ga * (x * x)) xs) ->
+  (k < length xs)%nat -> (k < length w)%nat -> 0 < nth k w 0 ->
+  nth k (fitted opsR (design a b nseg p xs) beta) 0 = al + be * nth k xs 0 + ga * (nth k xs 0 * nth k xs 0).
+Proof. exact quadratic_reproduced. Qed.
+Print Assumptions C05_quadratic_reproduced.
 
 (* leverages lie in [0,1] *)
 Theorem C05_leverage_in_unit_interval : forall nb B w pens i z, wfB nb B -> wfP nb pens -> length z = nb ->
